@@ -114,7 +114,13 @@ def random_check(ctx, n):
     for i in range(n):
         base = pressure.gen_case(ctx.rng, mode="uniform")
         if any(isinstance(f["uops"], dict) for f in base["forms"]):
-            continue      # alternatives change the micro-op set between modes; covered by C01's correspondence
+            # alternatives change the micro-op set between modes: no optimum comparison, but the choice of the
+            # alternative is part of the model and is compared bit for bit
+            for mode in pressure.MODES:
+                c = dict(base, mode=mode)
+                cases_outs.append((c, pressure.run_impl(c)))
+            ctx.count()
+            continue
         outs = {}
         for mode in pressure.MODES:
             c = dict(base, mode=mode)
